@@ -24,6 +24,7 @@ func init() {
 		Controls: []Control{
 			{Name: "cursor-adjusted-after-the-probing-loop", File: "routingtable/adjRIBOut/path_id_manager.go", Old: "\tfm.idByPath[hash] = fm.last\n\tfm.ids[fm.last] = 1\n", New: "\tif fm.last == 0 {\n\t\tfm.last++\n\t}\n\tfm.idByPath[hash] = fm.last\n\tfm.ids[fm.last] = 1\n", Expect: "identifier-probed-free-before-use"},
 			{Name: "removal-matched-by-received-identifier", File: "routingtable/adjRIBOut/adj_rib_out.go", Old: "\t\t\tif sp.Select(p) == 0 {\n\t\t\t\ta.rt.RemovePath(pfx, sp)\n", New: "\t\t\tif sp.Select(p) == 0 || (p.BGPPath != nil && p.BGPPath.PathIdentifier != 0 && sp.BGPPath.PathIdentifier == p.BGPPath.PathIdentifier) {\n\t\t\t\ta.rt.RemovePath(pfx, sp)\n", Expect: "received-identifier-not-interpreted-on-export"},
+			{Name: "refactor-first-match-by-helper", Silent: true, File: "route/route.go", Old: "\ti := -1\n\tfor j := range paths {\n\t\tif paths[j].Compare(remove) {\n\t\t\ti = j\n\t\t\tbreak\n\t\t}\n\t}\n", New: "\ti := func() int {\n\t\tfor j := range paths {\n\t\t\tif paths[j].Compare(remove) {\n\t\t\t\treturn j\n\t\t\t}\n\t\t}\n\t\treturn -1\n\t}()\n"},
 			{Name: "removal-drops-every-match", File: "route/route.go", Old: "\t\tif paths[j].Compare(remove) {\n\t\t\ti = j\n\t\t\tbreak\n\t\t}\n", New: "\t\tif paths[j].Compare(remove) {\n\t\t\ti = j\n\t\t}\n", Expect: "removal-takes-one-match"},
 			{Name: "removal-by-decision-equality", File: "route/route.go", Old: "\t\tif paths[j].Compare(remove) {\n", New: "\t\tif paths[j].Equal(remove) {\n", Expect: "decision-equality-is-not-identity"},
 			{Name: "known-path-not-counted", File: "routingtable/adjRIBOut/path_id_manager.go", Old: "\t\tid := fm.idByPath[hash]\n\t\tfm.ids[id]++\n\t\treturn id, nil\n", New: "\t\tid := fm.idByPath[hash]\n\t\treturn id, nil\n", Expect: "refcount-follows-users"},
